@@ -7,9 +7,12 @@ EXTENDS JetLib, Json, IOUtils
 Rec == ndJsonDeserialize(IOEnv.TRACE)
 VARIABLE l
 S(x) == ToString(x)
-Ok(e) == /\ S(e.out) # S("panic")
-         /\ JetKnown(e.name) => S(e.out) = (IF S(JetOut(e.name, e.in)) = S(JetFails) THEN S("jetfailed") ELSE S(JetOut(e.name, e.in)))
-         /\ JetKnownRel(e.name) => RelOk(e.name, e.in, IF S(e.out) = S("jetfailed") THEN JetFails ELSE e.out)
+\* the observed output with whatever sits in padding positions replaced by zeros
+IsText(x) == SubSeq(S(x), 1, 1) = "\""              \* "jetfailed" or "panic: ..." instead of a bit sequence
+Seen(e) == IF IsText(e.out) THEN e.out ELSE ZeroPadding(e.name, e.out)
+Ok(e) == /\ (IsText(e.out) => S(e.out) = S("jetfailed"))
+         /\ JetKnown(e.name) => S(Seen(e)) = (IF S(JetOut(e.name, e.in)) = S(JetFails) THEN S("jetfailed") ELSE S(JetOut(e.name, e.in)))
+         /\ JetKnownRel(e.name) => RelOk(e.name, e.in, IF S(e.out) = S("jetfailed") THEN JetFails ELSE Seen(e))
 Init == l = 1
 Next == l <= Len(Rec) /\ (Ok(Rec[l]) = TRUE) /\ l' = l + 1
 Spec == Init /\ [][Next]_l
